@@ -79,10 +79,42 @@ fn main() {
                         pick.dedup();
                         idx = pick;
                     }
-                    for i in idx {
+                    // (kind, i, j): one failing call; two failing calls; every call from i to j failing (a device that is
+                    // away for a while and comes back)
+                    let mut plans: Vec<(u8, u64, u64)> = idx.iter().map(|&i| (0u8, i, 0u64)).collect();
+                    let multi = fe.get("multi").and_then(|x| x.as_u64()).unwrap_or(0);
+                    if n >= 2 {
+                        let mut rng = vals::Rng((opts.seed ^ 0xFA17) ^ ((hi as u64) << 12));
+                        for k in 0..multi {
+                            let a = 1 + rng.below(n);
+                            let b = 1 + rng.below(n);
+                            let (a, b) = if a <= b { (a, b) } else { (b, a) };
+                            if a == b {
+                                continue;
+                            }
+                            if k % 3 == 2 {
+                                plans.push((2, a, (a + 1 + rng.below(6)).min(n)));
+                            } else {
+                                plans.push((1, a, if k % 3 == 0 { b } else { (a + 1 + rng.below(4)).min(n) }));
+                            }
+                        }
+                    }
+                    for (kind, i, j) in plans {
                         let mut hh = h.clone();
-                        hh["fail_at"] = serde_json::json!(i);
-                        hh["id"] = serde_json::json!(format!("{}#{}", h["id"].as_str().unwrap_or("?"), i));
+                        match kind {
+                            0 => {
+                                hh["fail_at"] = serde_json::json!(i);
+                                hh["id"] = serde_json::json!(format!("{}#{}", h["id"].as_str().unwrap_or("?"), i));
+                            }
+                            1 => {
+                                hh["fail_set"] = serde_json::json!([i, j]);
+                                hh["id"] = serde_json::json!(format!("{}#{}+{}", h["id"].as_str().unwrap_or("?"), i, j));
+                            }
+                            _ => {
+                                hh["fail_set"] = serde_json::json!((i..=j).collect::<Vec<u64>>());
+                                hh["id"] = serde_json::json!(format!("{}#{}..{}", h["id"].as_str().unwrap_or("?"), i, j));
+                            }
+                        }
                         let mut events = Vec::new();
                         let st = fs::run_history(&hh, &mut events, &opts, &mut sink);
                         sink.flush_events(&mut events);
